@@ -523,3 +523,148 @@ Theorem lex_positions : forall ol s,
 Proof.
   intros ol s. unfold lex, lex_fuel. apply lex_all_positions; [rewrite m_new_reader; lia|apply Inv_new].
 Qed.
+
+(* the shape of the stream: when it does not end in a lexer error, its last token is the end token *)
+Lemma lex_all_shape ol fuel : forall rd,
+  snd (lex_all ol fuel rd) = EEnd ->
+  fst (lex_all ol fuel rd) <> [] /\ pt_kind (last (fst (lex_all ol fuel rd)) (mkPtok TEnd [] 0 0)) = TEnd.
+Proof.
+  induction fuel as [|f IH]; intros rd; cbn [lex_all]; [cbn; discriminate|].
+  destruct (next_token ol (S f) rd) as [t rd1| rd1 | |]; cbn [fst snd]; try discriminate.
+  specialize (IH rd1).
+  destruct (tkind_eqb (tk_kind t) TEnd) eqn:Ek.
+  - assert (tk_kind t = TEnd) as -> by (destruct (tk_kind t); cbn in Ek; congruence).
+    cbn [fst snd]. intros _. split; [discriminate|reflexivity].
+  - assert (Hlex : (let '(ps, e) := lex_all ol f rd1 in
+                    (mkPtok (tk_kind t) (tk_text t) (r_line rd1) (r_col rd1) :: ps, e)) =
+                   match tk_kind t with
+                   | TEnd => ([mkPtok (tk_kind t) (tk_text t) (r_line rd1) (r_col rd1)], EEnd)
+                   | _ => let '(ps, e) := lex_all ol f rd1 in
+                          (mkPtok (tk_kind t) (tk_text t) (r_line rd1) (r_col rd1) :: ps, e)
+                   end).
+    { destruct (tk_kind t); try reflexivity. cbn in Ek. discriminate. }
+    rewrite <- Hlex. clear Hlex.
+    destruct (lex_all ol f rd1) as [ps e]. cbn [fst snd] in *.
+    intros He. destruct (IH He) as [Hne Hlast].
+    split; [discriminate|]. destruct ps; [contradiction|exact Hlast].
+Qed.
+
+Lemma lex_shape ol s :
+  snd (lex ol s) = EEnd ->
+  fst (lex ol s) <> [] /\ pt_kind (last (fst (lex ol s)) (mkPtok TEnd [] 0 0)) = TEnd.
+Proof. apply lex_all_shape. Qed.
+
+Lemma rune_count_fuel_nonneg n : forall bs, 0 <= rune_count_fuel n bs.
+Proof.
+  induction n as [|n IH]; intros bs; cbn [rune_count_fuel]; [lia|].
+  destruct bs; [lia|]. specialize (IH (skipn (snd (decode_rune (n0 :: bs))) (n0 :: bs))). lia.
+Qed.
+
+Lemma rune_count_nonneg bs : 0 <= rune_count bs.
+Proof. apply rune_count_fuel_nonneg. Qed.
+
+(* ------------------------------------------------------------------------------------------------ *)
+(* UTF-8: the encoding of a rune decodes to one rune of the same size, so a text written rune by rune
+   (bytes.Buffer.WriteRune) has as many characters (utf8.RuneCountInString) as runes were written *)
+
+Local Open Scope N_scope.
+
+(* what is needed of every rune: its encoding decodes with the size of the encoding, and a one-byte encoding is
+   an ASCII byte *)
+Definition enc_ok (r : N) : bool :=
+  let e := encode_rune r in
+  (Nat.eqb (snd (decode_rune e)) (length e) &&
+   match e with [b] => b <? 128 | [] => false | _ => true end)%bool.
+
+Ltac Zify.zify_post_hook ::= Z.to_euclidean_division_equations.
+
+Ltac enc_cases :=
+  repeat match goal with
+         | |- context [N.eqb ?a ?b] => destruct (N.eqb_spec a b); try lia
+         | |- context [N.ltb ?a ?b] => destruct (N.ltb_spec a b); try lia
+         | |- context [N.leb ?a ?b] => destruct (N.leb_spec a b); try lia
+         end.
+
+Lemma enc_ok_all r : enc_ok r = true.
+Proof.
+  unfold enc_ok, encode_rune, valid_rune.
+  destruct (N.ltb_spec r 128).
+  { cbv zeta. unfold decode_rune. enc_cases. reflexivity. }
+  destruct (N.ltb_spec r 2048).
+  { cbv zeta. unfold decode_rune, is_cont, in_rng. enc_cases; reflexivity. }
+  destruct (N.ltb_spec r 55296); cbn [orb negb].
+  { destruct (N.ltb_spec r 65536); [|lia].
+    cbv zeta. unfold decode_rune, is_cont, in_rng. enc_cases; reflexivity. }
+  destruct (N.ltb_spec 57343 r); cbn [andb negb]; [|vm_compute; reflexivity].
+  destruct (N.leb_spec r 1114111); cbn [negb]; [|vm_compute; reflexivity].
+  destruct (N.ltb_spec r 65536).
+  { cbv zeta. unfold decode_rune, is_cont, in_rng. enc_cases; reflexivity. }
+  cbv zeta. unfold decode_rune, is_cont, in_rng. enc_cases; reflexivity.
+Qed.
+
+Ltac Zify.zify_post_hook ::= idtac.
+
+(* a successful decode looks at the bytes it consumes only *)
+Lemma decode_rune_app bs t :
+  snd (decode_rune bs) = length bs ->
+  match bs with [b] => b <? 128 | [] => false | _ => true end = true ->
+  snd (decode_rune (bs ++ t)) = length bs.
+Proof.
+  destruct bs as [|b0 [|b1 [|b2 [|b3 [|b4 bs]]]]]; cbn [app length]; try discriminate.
+  - intros _ Hb. unfold decode_rune. rewrite Hb. reflexivity.
+  - unfold decode_rune. intros H _. revert H.
+    repeat match goal with
+           | |- context [if ?c then _ else _] => destruct c
+           end; cbn [snd]; try discriminate; auto.
+  - unfold decode_rune. intros H _. revert H.
+    repeat match goal with
+           | |- context [if ?c then _ else _] => destruct c
+           end; cbn [snd]; try discriminate; auto.
+  - unfold decode_rune. intros H _. revert H.
+    repeat match goal with
+           | |- context [if ?c then _ else _] => destruct c
+           end; cbn [snd]; try discriminate; auto.
+  - intros H _. pose proof (decode_rune_size b0 (b1 :: b2 :: b3 :: b4 :: bs)) as Hs. rewrite H in Hs. cbn in Hs. lia.
+Qed.
+
+Lemma decode_encode_size r t : snd (decode_rune (encode_rune r ++ t)) = length (encode_rune r).
+Proof.
+  pose proof (enc_ok_all r) as H. unfold enc_ok in H. apply andb_prop in H. destruct H as [H1 H2].
+  apply Nat.eqb_eq in H1. apply decode_rune_app; auto.
+Qed.
+
+Lemma encode_rune_nonempty r : encode_rune r <> [].
+Proof.
+  pose proof (enc_ok_all r) as H. unfold enc_ok in H. apply andb_prop in H. destruct H as [_ H].
+  destruct (encode_rune r); [discriminate|discriminate].
+Qed.
+
+Local Open Scope Z_scope.
+
+Lemma rune_count_fuel_indep : forall n k bs, (length bs <= n)%nat -> (length bs <= k)%nat ->
+  rune_count_fuel n bs = rune_count_fuel k bs.
+Proof.
+  induction n as [|n IH]; intros k bs Hn Hk.
+  - destruct bs; [|cbn in Hn; lia]. destruct k; reflexivity.
+  - destruct k as [|k]; [destruct bs; [reflexivity|cbn in Hk; lia]|].
+    cbn [rune_count_fuel]. destruct bs as [|b t]; [reflexivity|].
+    pose proof (decode_rune_size b t) as Hs.
+    f_equal. apply IH; rewrite skipn_length; cbn [length] in *; lia.
+Qed.
+
+Lemma rune_count_encode r t : rune_count (encode_rune r ++ t) = 1 + rune_count t.
+Proof.
+  unfold rune_count.
+  pose proof (encode_rune_nonempty r) as Hne. pose proof (decode_encode_size r t) as Hd.
+  destruct (encode_rune r) as [|x e'] eqn:E0; [contradiction|].
+  cbn [app length rune_count_fuel]. change (x :: e' ++ t) with ((x :: e') ++ t).
+  rewrite Hd. rewrite skipn_app. rewrite skipn_all. rewrite Nat.sub_diag. cbn [skipn app].
+  f_equal. apply rune_count_fuel_indep; [rewrite app_length|]; lia.
+Qed.
+
+Lemma rune_count_flat_map rs : rune_count (flat_map encode_rune rs) = Z.of_nat (length rs).
+Proof.
+  induction rs as [|r rs IH]; [reflexivity|].
+  cbn [flat_map length]. rewrite rune_count_encode, IH. lia.
+Qed.
+
